@@ -1,9 +1,402 @@
-import Operon.Model.Membrane
-import Operon.Model.Innate
+import Operon.Lemmas.C10
 import Operon.Gen.GatesConsts
+/-!
+# C10 — prompt-injection gates block every signature hit, stay blocked, and never crash
+
+Property theorems only.  Models: `Operon/Model/Gates.lean`, `Membrane.lean`, `Innate.lean` (hand-written, tied to
+`operon_ai/organelles/membrane.py` and `operon_ai/surveillance/innate.py` by the correspondence of
+`harness/vf/props/c10.py`; constants regenerated from the source into `Operon/Gen/GatesConsts.lean`).
+
+Every statement quantifies over every environment `env` (any char-wise lowering function, any regex engine, any
+JSON parser outcome), every gate state / configuration (threshold, signature lists — built-in, custom, learned,
+imported —, rate limit, window length, validators, inflammation cut-offs), every input string (a list of code
+points of any length, surrogates and control characters included) and, where histories are involved, every list
+of operations.  Hypotheses about regexes are stated per signature and never needed for substring signatures.
+-/
 namespace Operon.Gates
 
-/-- placeholder while the correspondence is brought up -/
-theorem c10_placeholder : critical = 3 := rfl
+/-! ## Membrane -/
+
+/-- **No input makes the membrane raise**: `filter` returns a `FilterResult` for every state, time and input. -/
+theorem c10_membrane_total (env : Env) (m : Membrane) (now : Nat) (c : Str) :
+    ∃ r, (m.filter env now c).2 = .ok r := by
+  obtain ⟨r, h, -⟩ := filter_spec env m now c
+  exact ⟨r, h⟩
+
+/-- **Allowed only if clean**, as an exact characterisation: the membrane allows `c` iff the call is not rate
+    limited, `c` is not in the replay memory, and every active signature (innate, custom, learned, imported)
+    that matches `c` has a level strictly below the threshold (and the threshold is not SAFE = 0, at which
+    everything is blocked). -/
+theorem c10_membrane_allowed_iff (env : Env) (m : Membrane) (now : Nat) (c : Str) (r : FilterRes)
+    (h : (m.filter env now c).2 = .ok r) :
+    r.allowed = true ↔
+      ((rateCheck m now).1 = false ∧ c ∉ m.blocked ∧ 0 < m.threshold ∧
+        ∀ s ∈ m.active, s.matches env c = true → s.level < m.threshold) := by
+  obtain ⟨r', hr', -, -, -, -, -, -, -, -, -, hrate, hrep, hscan, hns, hs⟩ := filter_spec env m now c
+  rw [h] at hr'; cases hr'
+  by_cases hsc : r.reason = .scan
+  · obtain ⟨-, -, hal, -, -⟩ := hs hsc
+    obtain ⟨h1, h2⟩ := hscan.mp hsc
+    rw [hal, maxLevel_lt_iff]
+    simp only [mem_matched]
+    constructor
+    · rintro ⟨h0, hall⟩; exact ⟨h1, h2, h0, fun s hs hm => hall s ⟨hs, hm⟩⟩
+    · rintro ⟨-, -, h0, hall⟩; exact ⟨h0, fun s hs => hall s hs.1 hs.2⟩
+  · have hf := (hns hsc).1
+    constructor
+    · intro ha; rw [hf] at ha; cases ha
+    · rintro ⟨h1, h2, -, -⟩; exact absurd (hscan.mpr ⟨h1, h2⟩) hsc
+
+/-- **Allowed only if clean** (the direction the property states): an allowed input is matched by no active
+    signature at or above the blocking threshold. -/
+theorem c10_membrane_allowed_only_if_clean (env : Env) (m : Membrane) (now : Nat) (c : Str) (r : FilterRes)
+    (h : (m.filter env now c).2 = .ok r) (ha : r.allowed = true) :
+    ∀ s ∈ m.active, s.matches env c = true → s.level < m.threshold :=
+  ((c10_membrane_allowed_iff env m now c r h).mp ha).2.2.2
+
+/-- **The reported level is the maximum over the matched signatures**, and the matched signatures are exactly
+    the active signatures that match, in scan order — for every decision taken by the scan.  Rate-limit and
+    replay rejections report CRITICAL with no matches by design; they are characterised too. -/
+theorem c10_membrane_level_is_max_of_matched (env : Env) (m : Membrane) (now : Nat) (c : Str) (r : FilterRes)
+    (h : (m.filter env now c).2 = .ok r) :
+    (r.reason = .scan →
+      r.matched = m.active.filter (fun s => s.matches env c) ∧
+      (∀ s ∈ r.matched, s.level ≤ r.level) ∧
+      ((r.matched = [] ∧ r.level = 0) ∨ ∃ s ∈ r.matched, s.level = r.level) ∧
+      (r.allowed = true ↔ r.level < m.threshold)) ∧
+    (r.reason ≠ .scan → r.allowed = false ∧ r.level = critical ∧ r.matched = []) := by
+  obtain ⟨r', hr', -, -, -, -, -, -, -, -, -, -, -, -, hns, hs⟩ := filter_spec env m now c
+  rw [h] at hr'; cases hr'
+  constructor
+  · intro hsc
+    obtain ⟨hm, hl, hal, -, -⟩ := hs hsc
+    rw [hm, hl]
+    exact ⟨rfl, maxLevel_ge_mem _, maxLevel_attained _, hal⟩
+  · intro hsc
+    exact ⟨(hns hsc).1, (hns hsc).2.1, (hns hsc).2.2.1⟩
+
+/-- **A blocked input stays blocked under perturbation** (general form).  If the scan of `m` blocks `c`
+    (its level reaches the threshold) and `c'` is any input that every signature matching `c` still matches, then
+    `c'` is rejected by every gate state `m'` carrying the same rules — in particular by `m` itself and by the
+    state after `c` was filtered —, at every time, whatever the rate window and the replay memory contain. -/
+theorem c10_membrane_blocked_stays_blocked (env : Env) (m m' : Membrane) (now' : Nat) (c c' : Str)
+    (hblocked : ¬ scanLevel env m.active c < m.threshold)
+    (hsame : m'.active = m.active ∧ m'.threshold = m.threshold)
+    (hkeeps : KeepsHits env m.active c c') (r' : FilterRes) (h' : (m'.filter env now' c').2 = .ok r') :
+    r'.allowed = false := by
+  cases ha : r'.allowed with
+  | false => rfl
+  | true =>
+    exfalso
+    have hclean := c10_membrane_allowed_iff env m' now' c' r' h'
+    obtain ⟨-, -, h0, hall⟩ := hclean.mp ha
+    apply hblocked
+    have hmono := scanLevel_mono env m.active c c' hkeeps
+    have : scanLevel env m.active c' < m.threshold := by
+      unfold scanLevel
+      rw [maxLevel_lt_iff]
+      refine ⟨by rw [← hsame.2]; exact h0, ?_⟩
+      intro s hs
+      rw [mem_matched] at hs
+      rw [← hsame.2]; exact hall s (by rw [hsame.1]; exact hs.1) hs.2
+    omega
+
+/-- **Case changes**: for substring signatures unconditionally, for regex signatures under the stated hypothesis
+    that the regex does not distinguish case variants, a case variant `c'` of `c` (same lower-cased code points)
+    gets exactly the same scan — same matched signatures, same level — and if `c` is blocked so is `c'`. -/
+theorem c10_membrane_case_invariant (env : Env) (m m' : Membrane) (now' : Nat) (c c' : Str)
+    (hv : CaseVariant env c c')
+    (hrx : ∀ s ∈ m.active, s.isRegex = true → RxCaseInv env s.pat) :
+    matched env m.active c = matched env m.active c' ∧
+    scanLevel env m.active c = scanLevel env m.active c' ∧
+    (¬ scanLevel env m.active c < m.threshold → m'.active = m.active ∧ m'.threshold = m.threshold →
+      ∀ r', (m'.filter env now' c').2 = .ok r' → r'.allowed = false) := by
+  have hm := matched_case env m.active c c' hv hrx
+  refine ⟨hm, by unfold scanLevel; rw [hm], ?_⟩
+  intro hb hsame r' h'
+  exact c10_membrane_blocked_stays_blocked env m m' now' c c' hb hsame
+    (keepsHits_of_case env m.active c c' hv hrx) r' h'
+
+/-- **Embedding in surrounding text**: for substring signatures unconditionally, for regex signatures under the
+    stated hypothesis that each regex which matched `c` still matches `pre ++ c ++ post`, embedding never lowers
+    the level, and a blocked input stays blocked when embedded. -/
+theorem c10_membrane_embedding_monotone (env : Env) (m m' : Membrane) (now' : Nat) (c pre post : Str)
+    (hrx : ∀ s ∈ m.active, s.isRegex = true → env.rx s.pat c = true → env.rx s.pat (pre ++ c ++ post) = true) :
+    scanLevel env m.active c ≤ scanLevel env m.active (pre ++ c ++ post) ∧
+    (¬ scanLevel env m.active c < m.threshold → m'.active = m.active ∧ m'.threshold = m.threshold →
+      ∀ r', (m'.filter env now' (pre ++ c ++ post)).2 = .ok r' → r'.allowed = false) := by
+  have hk := keepsHits_of_embed env m.active c pre post hrx
+  refine ⟨scanLevel_mono env m.active c _ hk, ?_⟩
+  intro hb hsame r' h'
+  exact c10_membrane_blocked_stays_blocked env m m' now' c _ hb hsame hk r' h'
+
+/-- **Replay memory**: once the membrane has rejected `c` for what it contains (by the scan, or again from
+    memory), every later `filter` of `c` is rejected too — after *any* history of operations (forgetting
+    patterns, lowering/raising the threshold, importing, learning, clearing the audit log, time passing, other
+    inputs).  Rejections that are only rate limiting say nothing about the input and are excluded. -/
+theorem c10_membrane_replay_memory (env : Env) (st : MSt) (c : Str) (r : FilterRes)
+    (h : (st.m.filter env st.now c).2 = .ok r) (hrej : r.allowed = false) (hnr : r.reason ≠ .rate)
+    (ops : List MOp) (r2 : FilterRes)
+    (h2 : ((mrun env (mstep env st (.filter c)).1 ops).1.m.filter env
+            (mrun env (mstep env st (.filter c)).1 ops).1.now c).2 = .ok r2) :
+    r2.allowed = false := by
+  have hin : c ∈ (mstep env st (.filter c)).1.m.blocked := by
+    obtain ⟨r', hr', -, -, -, -, -, -, -, -, -, hrate, hrep, hscan, hns, hs⟩ := filter_spec env st.m st.now c
+    rw [h] at hr'; cases hr'
+    simp only [mstep]
+    by_cases hsc : r.reason = .scan
+    · rw [(hs hsc).2.2.2.2 hrej]; simp
+    · rw [(hns hsc).2.2.2]
+      have : r.reason = .replay := by
+        cases hr : r.reason with
+        | rate => exact absurd hr hnr
+        | replay => rfl
+        | scan => exact absurd hr hsc
+      exact (hrep.mp this).2
+  have hin2 := mrun_blocked_mono env ops _ c hin
+  cases ha : r2.allowed with
+  | false => rfl
+  | true =>
+    have := (c10_membrane_allowed_iff env _ _ c r2 h2).mp ha
+    exact absurd hin2 this.2.1
+
+/-- **Rate window**: start from a membrane with rate limit `r` whose request list is empty, run any history
+    (time only moves forward: `adv d` adds `d ≥ 0`).  For every instant `T`, the number of filter calls that got
+    past the rate check at a time in `(T - window, T]` is at most `r`; a fortiori at most `r` inputs are
+    *allowed* in any window.  Holds for every window length. -/
+theorem c10_membrane_rate_window (env : Env) (st : MSt) (r : Nat) (hr : st.m.rateLimit = some r)
+    (hfresh : st.m.reqTimes = []) (ops : List MOp) (T : Nat) :
+    ((admissions (mrun env st ops).2).filter (inWin st.m.window T)).length ≤ r ∧
+    ((allowedTimes (mrun env st ops).2).filter (inWin st.m.window T)).length ≤ r := by
+  have h0 : RateInv st.m.window r st [] :=
+    ⟨hr, rfl, by simp, by intro q _; simp [hfresh, prune], by simp⟩
+  have h1 := rateInv_run env st.m.window r ops st [] h0
+  have hb := h1.bound T
+  simp only [List.nil_append] at hb
+  refine ⟨hb, Nat.le_trans ?_ hb⟩
+  exact allowed_sub_admissions _ (fun t r' hm hrr => mrun_events_wf env ops st t r' hm hrr) _
+
+/-- **Audit completeness**, one operation: every `filter` call appends exactly its own result to the audit
+    trail (whatever exit it took: rate limit, replay, scan allow, scan block); no other operation except
+    `clear_audit_log` touches the trail. -/
+theorem c10_membrane_audit_step (env : Env) (st : MSt) (op : MOp) :
+    (mstep env st op).1.m.audit =
+      (if op.isClear then [] else st.m.audit ++ results (mstep env st op).2.toList) ∧
+    (∀ c, op = .filter c → ∃ r, (mstep env st op).2 = some (st.now, .ok r) ∧
+      (mstep env st op).1.m.audit = st.m.audit ++ [r] ∧ r.key = c) := by
+  constructor
+  · cases hc : op.isClear with
+    | true =>
+      cases op <;> simp [MOp.isClear] at hc
+      simp [mstep, Membrane.clearAudit]
+    | false => simpa using mstep_audit env st op hc
+  · intro c hop; subst hop
+    obtain ⟨r, hres, haud, -, -, -, -, -, -, -, hkey, -⟩ := filter_spec env st.m st.now c
+    exact ⟨r, by simp [mstep, hres], by simpa [mstep] using haud, hkey⟩
+
+/-- **Audit completeness**, histories: along any history without `clear_audit_log`, the audit trail is the
+    initial trail followed by the result of every filter call, in order, nothing missing, nothing extra. -/
+theorem c10_membrane_audit_complete (env : Env) (ops : List MOp) (hnc : ∀ op ∈ ops, op.isClear = false) :
+    ∀ st : MSt, (mrun env st ops).1.m.audit = st.m.audit ++ results (mrun env st ops).2 := by
+  induction ops with
+  | nil => intro st; simp [mrun, results]
+  | cons op ops ih =>
+    intro st
+    have h1 := mstep_audit env st op (hnc op (by simp))
+    have h2 := ih (fun o ho => hnc o (List.mem_cons_of_mem _ ho)) (mstep env st op).1
+    simp only [mrun, results_append]
+    rw [h2, h1, List.append_assoc]
+
+/-! ## Innate immunity -/
+
+/-- **No input makes the innate check raise**, given only that `json.loads` fails with one of the exception
+    classes it is known to raise (JSONDecodeError, another ValueError, RecursionError) — for every validator list
+    built from the three shipped validators, every pattern list, every state and time. -/
+theorem c10_innate_total (env : Env) (im : Innate) (now : Nat) (c : Str) (hj : env.json c ≠ .other) :
+    ∃ r, (im.check env now c).2 = .ok r := by
+  obtain ⟨errs, he⟩ := runValidators_total env im.validators c (fun v _ => run_total env v c hj)
+  obtain ⟨r, hr, -⟩ := check_spec env im now c errs he
+  exact ⟨r, hr⟩
+
+/-- **Allowed only if clean**, exact characterisation: `check` allows `c` iff every matching TLR pattern has a
+    severity strictly below the threshold (and the threshold is not 0), every structural validator accepts `c`,
+    and the inflammation level computed for this input is below ACUTE.  The result lists exactly the matching
+    patterns and exactly the rejecting validators. -/
+theorem c10_innate_allowed_iff (env : Env) (im : Innate) (now : Nat) (c : Str) (r : CheckRes)
+    (h : (im.check env now c).2 = .ok r) :
+    r.matched = im.patterns.filter (fun s => s.matches env c) ∧
+    r.errors = im.validators.filter (fun v => v.rejects env c) ∧
+    (r.allowed = true ↔
+      ((0 < im.sevThreshold ∧ ∀ s ∈ im.patterns, s.matches env c = true → s.level < im.sevThreshold) ∧
+       (∀ v ∈ im.validators, v.run env c = .ok true) ∧ r.level < lvlAcute)) := by
+  cases hv : runValidators env im.validators c with
+  | raise k => rw [check_raise env im now c k hv] at h; cases h
+  | ok errs =>
+    obtain ⟨r', hr', hm, he, hl, hal, -⟩ := check_spec env im now c errs hv
+    rw [h] at hr'; cases hr'
+    obtain ⟨hfilt, hok⟩ := runValidators_ok env im.validators c errs hv
+    refine ⟨hm, by rw [he, hfilt], ?_⟩
+    rw [hal, maxLevel_lt_iff, hl]
+    have herr : errs = [] ↔ ∀ v ∈ im.validators, v.run env c = .ok true := by
+      rw [hfilt, List.filter_eq_nil_iff]
+      constructor
+      · intro hno v hvm
+        obtain ⟨b, hb⟩ := hok v hvm
+        cases b with
+        | true => exact hb
+        | false => exact absurd (by simp [Validator.rejects, hb]) (hno v hvm)
+      · intro hall v hvm
+        simp [Validator.rejects, hall v hvm]
+    rw [herr]
+    simp only [mem_matched]
+    constructor
+    · rintro ⟨⟨h0, hall⟩, hvs, hlv⟩; exact ⟨⟨h0, fun s hs hm => hall s ⟨hs, hm⟩⟩, hvs, hlv⟩
+    · rintro ⟨⟨h0, hall⟩, hvs, hlv⟩; exact ⟨⟨h0, fun s hs => hall s hs.1 hs.2⟩, hvs, hlv⟩
+
+/-- **Allowed only if clean** (the direction the property states). -/
+theorem c10_innate_allowed_only_if_clean (env : Env) (im : Innate) (now : Nat) (c : Str) (r : CheckRes)
+    (h : (im.check env now c).2 = .ok r) (ha : r.allowed = true) :
+    (∀ s ∈ im.patterns, s.matches env c = true → s.level < im.sevThreshold) ∧
+    (∀ v ∈ im.validators, v.rejects env c = false) := by
+  obtain ⟨-, -, hiff⟩ := c10_innate_allowed_iff env im now c r h
+  obtain ⟨⟨-, hp⟩, hv, -⟩ := hiff.mp ha
+  exact ⟨hp, fun v hvm => by simp [Validator.rejects, hv v hvm]⟩
+
+/-- **A signature-blocked input stays blocked under perturbation**: if some pattern at or above the severity
+    threshold matches `c`, and `c'` keeps every hit of `c`, then `check` rejects `c'` in every state with the same
+    patterns and threshold, at every time, whatever the inflammation state and the validators. -/
+theorem c10_innate_blocked_stays_blocked (env : Env) (im im' : Innate) (now' : Nat) (c c' : Str)
+    (hblocked : ∃ s ∈ im.patterns, s.matches env c = true ∧ im.sevThreshold ≤ s.level)
+    (hsame : im'.patterns = im.patterns ∧ im'.sevThreshold = im.sevThreshold)
+    (hkeeps : KeepsHits env im.patterns c c') (r' : CheckRes) (h' : (im'.check env now' c').2 = .ok r') :
+    r'.allowed = false := by
+  cases ha : r'.allowed with
+  | false => rfl
+  | true =>
+    exfalso
+    obtain ⟨s, hs, hm, hle⟩ := hblocked
+    have := (c10_innate_allowed_only_if_clean env im' now' c' r' h' ha).1 s (by rw [hsame.1]; exact hs)
+      (hkeeps s hs hm)
+    rw [hsame.2] at this
+    omega
+
+/-- **Case changes and embedding** for the innate filter: a case variant of a signature-blocked input (regex
+    patterns assumed case-invariant) and an embedding of it (each regex that matched assumed to still match) are
+    rejected; substring patterns need no hypothesis. -/
+theorem c10_innate_case_and_embedding (env : Env) (im im' : Innate) (now' : Nat) (c : Str)
+    (hblocked : ∃ s ∈ im.patterns, s.matches env c = true ∧ im.sevThreshold ≤ s.level)
+    (hsame : im'.patterns = im.patterns ∧ im'.sevThreshold = im.sevThreshold) :
+    (∀ c', CaseVariant env c c' → (∀ s ∈ im.patterns, s.isRegex = true → RxCaseInv env s.pat) →
+      ∀ r', (im'.check env now' c').2 = .ok r' → r'.allowed = false) ∧
+    (∀ pre post,
+      (∀ s ∈ im.patterns, s.isRegex = true → env.rx s.pat c = true → env.rx s.pat (pre ++ c ++ post) = true) →
+      ∀ r', (im'.check env now' (pre ++ c ++ post)).2 = .ok r' → r'.allowed = false) := by
+  constructor
+  · intro c' hv hrx r' h'
+    exact c10_innate_blocked_stays_blocked env im im' now' c c' hblocked hsame
+      (keepsHits_of_case env im.patterns c c' hv hrx) r' h'
+  · intro pre post hrx r' h'
+    exact c10_innate_blocked_stays_blocked env im im' now' c _ hblocked hsame
+      (keepsHits_of_embed env im.patterns c pre post hrx) r' h'
+
+/-! ## Constants regenerated from the source -/
+
+/-- The extractor recognised every constant it is responsible for (window length, default thresholds, level
+    enumerations, inflammation cut-offs, validator defaults, both built-in signature tables).  A `none` here means
+    the source no longer has the shape the model assumes. -/
+theorem c10_consts_extracted :
+    Operon.Gen.Gates.membraneWindowS.isSome ∧ Operon.Gen.Gates.membraneDefaultThreshold.isSome ∧
+    Operon.Gen.Gates.membraneCritical = some critical ∧
+    Operon.Gen.Gates.innateDefaultSevThreshold.isSome ∧ Operon.Gen.Gates.inflCuts.isSome ∧
+    Operon.Gen.Gates.inflammationLevels =
+      some [("NONE", lvlNone), ("LOW", lvlLow), ("MEDIUM", lvlMedium), ("HIGH", lvlHigh), ("ACUTE", lvlAcute)] ∧
+    Operon.Gen.Gates.innateDefaultValidators.isSome ∧ Operon.Gen.Gates.jsonDefaults.isSome ∧
+    Operon.Gen.Gates.membraneBuiltins.isSome ∧ Operon.Gen.Gates.innateBuiltins.isSome := by
+  decide
+
+/-- the membrane a default constructor call builds, from the regenerated tables -/
+def shippedMembrane : Membrane :=
+  Membrane.new ((Operon.Gen.Gates.membraneBuiltins.getD []).map fun (p, l, r) => ⟨p, l, r⟩)
+    (Operon.Gen.Gates.membraneDefaultThreshold.getD 0) true none
+    (Operon.Gen.Gates.membraneWindowS.getD 0 * 1000000)
+
+/-- **The shipped configuration blocks every instance of its own substring signatures at or above the default
+    threshold**, in any letter case and embedded anywhere: for every built-in substring signature `s` of the
+    current source with level ≥ the default threshold, every input whose lower-cased form contains the
+    lower-cased pattern is rejected — also after any history that leaves rules and threshold unchanged. -/
+theorem c10_shipped_membrane_blocks_own_signatures (env : Env) (m' : Membrane) (now : Nat)
+    (hsame : m'.active = shippedMembrane.active ∧ m'.threshold = shippedMembrane.threshold)
+    (s : Sig) (hs : s ∈ shippedMembrane.sigs) (hsub : s.isRegex = false)
+    (hlvl : shippedMembrane.threshold ≤ s.level) (c : Str)
+    (hc : isInfix (lowerS env s.pat) (lowerS env c) = true) (r : FilterRes)
+    (h : (m'.filter env now c).2 = .ok r) : r.allowed = false := by
+  cases ha : r.allowed with
+  | false => rfl
+  | true =>
+    exfalso
+    have := c10_membrane_allowed_only_if_clean env m' now c r h ha s
+      (by rw [hsame.1]; exact List.mem_append_left _ hs)
+      (by simp [Sig.matches, hsub, hc])
+    rw [hsame.2] at this
+    omega
+
+/-! ## Non-vacuity: concrete states and inputs meeting the hypotheses -/
+
+/-- a test environment: ASCII-style lowering, a "regex" that looks for the digit 7, everything compiles -/
+private def env0 : Env := ⟨lowerStd, fun _ c => c.contains 55, fun _ => true, fun _ => .decodeError⟩
+private def sJail : Sig := ⟨[106, 97, 105, 108], 3, false⟩      -- "jail", CRITICAL, substring
+private def sSeven : Sig := ⟨[55], 2, true⟩                       -- regex, DANGEROUS
+private def m0 : Membrane := Membrane.new [sJail, sSeven] 2 true (some 2) 60
+
+/-- `c10_membrane_allowed_iff` / `_only_if_clean`: an allowed call exists (benign "hi") -/
+example : ∃ r, (m0.filter env0 0 [104, 105]).2 = .ok r ∧ r.allowed = true := ⟨_, rfl, by decide⟩
+
+/-- `c10_membrane_blocked_stays_blocked`, `_case_invariant`, `_embedding_monotone`: "JAIL" is scan-blocked, and
+    "xx jail!" keeps its hit -/
+example : ¬ scanLevel env0 m0.active [74, 65, 73, 76] < m0.threshold := by decide
+example : CaseVariant env0 [74, 65, 73, 76] [106, 65, 105, 76] := by unfold CaseVariant; decide
+example : (m0.filter env0 5 ([120, 120, 32] ++ [74, 65, 73, 76] ++ [33])).2 =
+    .ok ⟨false, 3, [sJail], [120, 120, 32, 74, 65, 73, 76, 33], .scan⟩ := by decide
+
+/-- `c10_membrane_replay_memory`: blocked by the scan, then the pattern list is emptied of matches by raising the
+    threshold to a level nothing reaches (4) — the input is still rejected, now from memory -/
+example :
+    ((mrun env0 (mstep env0 ⟨m0, 0⟩ (.filter [106, 97, 105, 108])).1 [.setThr 4, .adv 100]).1.m.filter env0
+      (mrun env0 (mstep env0 ⟨m0, 0⟩ (.filter [106, 97, 105, 108])).1 [.setThr 4, .adv 100]).1.now
+      [106, 97, 105, 108]).2 = .ok ⟨false, 3, [], [106, 97, 105, 108], .replay⟩ := by
+  decide
+
+/-- `c10_membrane_rate_window`: a fresh membrane with a rate limit, a history in which the third call inside the
+    window is refused and a call after the window is admitted again -/
+example : (allowedTimes (mrun env0 ⟨m0, 0⟩ [.filter [97], .filter [98], .filter [99], .adv 60, .filter [100]]).2)
+    = [0, 0, 60] := by decide
+
+/-- `c10_membrane_audit_complete`: a clear-free history with all four exits -/
+example : ((mrun env0 ⟨m0, 0⟩ [.filter [106, 97, 105, 108], .filter [106, 97, 105, 108], .filter [97]]).1.m.audit.map
+    (·.reason)) = [.scan, .replay, .rate] := by decide
+
+private def im0 : Innate :=
+  Innate.new [⟨[106, 97, 105, 108], 5, false⟩, sSeven] (some [.json 2 100, .charset false false]) [] 3 60
+    ⟨10, 5, 6, 4, 3, 2, 1, 2⟩
+
+/-- `c10_innate_total`: the hypothesis holds for an environment whose parser raises RecursionError, and the
+    check then *rejects* instead of raising -/
+example : (im0.check ⟨lowerStd, fun _ _ => false, fun _ => true, fun _ => .recursionError⟩ 0 [91, 91]).2
+    = .ok ⟨false, [], [.json 2 100], 1⟩ := by decide
+
+/-- `c10_innate_allowed_iff`: an allowed check exists (valid shallow JSON, no pattern) -/
+example : (im0.check ⟨lowerStd, fun _ _ => false, fun _ => true, fun _ => .parsed (.node [.scalar])⟩ 0 [91, 49, 93]).2
+    = .ok ⟨true, [], [], 0⟩ := by decide
+
+/-- `c10_innate_blocked_stays_blocked` / `_case_and_embedding`: "jail" is signature-blocked -/
+example : ∃ s ∈ im0.patterns, s.matches env0 [106, 97, 105, 108] = true ∧ im0.sevThreshold ≤ s.level :=
+  ⟨⟨[106, 97, 105, 108], 5, false⟩, by decide, by decide, by decide⟩
+
+/-- `c10_shipped_membrane_blocks_own_signatures`: the shipped table contains "jailbreak" (CRITICAL, substring),
+    the default threshold is below it, and "My JAILBREAK prompt" contains it case-insensitively -/
+example : (⟨[106, 97, 105, 108, 98, 114, 101, 97, 107], 3, false⟩ : Sig) ∈ shippedMembrane.sigs ∧
+    shippedMembrane.threshold ≤ 3 ∧
+    isInfix (lowerS env0 [106, 97, 105, 108, 98, 114, 101, 97, 107])
+      (lowerS env0 [77, 121, 32, 74, 65, 73, 76, 66, 82, 69, 65, 75, 32, 112]) = true := by decide
 
 end Operon.Gates
